@@ -79,7 +79,17 @@ var seriesSets = [][]labels.Labels{
 		ls("__name__", "h_bucket", "a", "1", "b", "1", "le", "0.5"), ls("__name__", "h_bucket", "a", "1", "b", "1", "le", "+Inf"),
 		ls("__name__", "h_bucket", "a", "1", "b", "2", "le", "0.5"), ls("__name__", "h_bucket", "a", "1", "b", "2", "le", "+Inf"),
 	},
+	{ // 3: multi-character values for the in-place rewrite family (inplace_test.go): several stored values share a first
+		// character, (a=1,b=12) and (a=11,b=2) concatenate to the same string, one series has no b. Only that family runs on it.
+		ls("__name__", "m", "a", "1", "b", "12"), ls("__name__", "m", "a", "11", "b", "2"), ls("__name__", "m", "a", "1", "b", "13"), ls("__name__", "m", "a", "12", "b", "13"),
+		ls("__name__", "m", "a", "2", "b", "21"), ls("__name__", "m", "a", "21", "b", "1"), ls("__name__", "m", "a", "22", "b", "22"), ls("__name__", "m", "a", "3", "b", "1"),
+		ls("__name__", "n", "a", "1", "b", "12"), ls("__name__", "n", "a", "11", "b", "2"), ls("__name__", "n", "a", "13", "b", "10"), ls("__name__", "n", "a", "2", "b", "20"),
+		ls("__name__", "n", "a", "20", "b", "3"), ls("__name__", "n", "a", "1"),
+	},
 }
+
+// oldSets: the series sets the first-round programs run on (set 3 only serves the in-place family).
+const oldSets = 3
 
 // value of series i at sample k: 2^i + k, so every subset of series has a different sum.
 func val(i, k int) float64 { return math.Pow(2, float64(i)) + float64(k) }
@@ -173,13 +183,18 @@ func metricJSON(l labels.Labels) string {
 	return string(b)
 }
 
-func (d downstream) RoundTrip(r *http.Request) (*http.Response, error) {
+func (d downstream) RoundTrip(r *http.Request) (resp *http.Response, err error) {
 	if err := r.ParseForm(); err != nil {
 		return nil, err
 	}
 	reply := func(code int, body string) (*http.Response, error) {
 		return &http.Response{StatusCode: code, Header: http.Header{"Content-Type": {"application/json"}}, Body: io.NopCloser(strings.NewReader(body)), Request: r}, nil
 	}
+	defer func() { // this runs on goroutines of the tripperware: a panic of the shard matcher must not kill the process
+		if p := recover(); p != nil {
+			resp, err = reply(422, fmt.Sprintf(`{"status":"error","errorType":"execution","error":%q}`, fmt.Sprint("panic while evaluating the shard: ", p)))
+		}
+	}()
 	var shard *storepb.ShardInfo
 	if s := r.Form.Get("shard_info"); s != "" {
 		shard = &storepb.ShardInfo{}
@@ -192,10 +207,7 @@ func (d downstream) RoundTrip(r *http.Request) (*http.Response, error) {
 		return int64(math.Round(f * 1000))
 	}
 	q := memQueryable{set: d.set, shard: shard}
-	var (
-		qry promql.Query
-		err error
-	)
+	var qry promql.Query
 	instant := strings.HasSuffix(r.URL.Path, "/query")
 	if instant {
 		qry, err = engine.NewInstantQuery(r.Context(), q, nil, r.Form.Get("query"), time.UnixMilli(ms("time")))
@@ -354,30 +366,56 @@ func programs(r *vlib.R) []string {
 	return out
 }
 
+// analyze calls the real analyzer; a panic of the code under test comes back as text.
+func analyze(an querysharding.Analyzer, q string) (a querysharding.QueryAnalysis, err error, panicked string) {
+	defer func() {
+		if p := recover(); p != nil {
+			panicked = fmt.Sprint(p)
+		}
+	}()
+	a, err = an.Analyze(q)
+	return a, err, ""
+}
+
 func gen(r *vlib.R) iter.Seq[Case] {
 	progs := programs(r)
 	r.Set("programs", len(progs))
+	inpl := inplacePrograms(progs)
+	r.Set("inplace_programs", len(inpl))
 	shardCounts := vlib.Pick(r, []int{2, 3}, []int{1, 2, 3, 4, 5})
 	an := querysharding.NewQueryAnalyzer()
 	return func(yield func(Case) bool) {
-		nShardable := 0
-		for _, q := range progs {
-			a, err := an.Analyze(q)
-			if err != nil || !a.IsShardable() {
-				continue
+		// the in-place family first (small, newest), then the first-round programs
+		for fam, list := range [][]string{inpl, progs} {
+			nShardable := 0
+			nSets := oldSets
+			if fam == 0 {
+				nSets = len(seriesSets)
 			}
-			nShardable++
-			for set := range seriesSets {
-				for _, n := range shardCounts {
-					for _, inst := range []bool{false, true} {
-						if !yield(Case{Query: q, Set: set, Shards: n, Instant: inst}) {
-							return
+			for _, q := range list {
+				a, err, pan := analyze(an, q)
+				if pan != "" { // reported by the evaluation of this one case
+					if !yield(Case{Query: q, Set: 0, Shards: shardCounts[0]}) {
+						return
+					}
+					continue
+				}
+				if err != nil || !a.IsShardable() {
+					continue
+				}
+				nShardable++
+				for set := 0; set < nSets; set++ {
+					for _, n := range shardCounts {
+						for _, inst := range []bool{false, true} {
+							if !yield(Case{Query: q, Set: set, Shards: n, Instant: inst}) {
+								return
+							}
 						}
 					}
 				}
 			}
+			r.Set([]string{"inplace_programs_the_analyzer_shards", "programs_the_analyzer_shards"}[fam], nShardable)
 		}
-		r.Set("programs_the_analyzer_shards", nShardable)
 	}
 }
 
@@ -388,7 +426,12 @@ type answer struct {
 	Series map[string][]string // metric -> "t=v" list
 }
 
-func ask(rt http.RoundTripper, c Case) answer {
+func ask(rt http.RoundTripper, c Case) (out answer) {
+	defer func() {
+		if p := recover(); p != nil {
+			out = answer{Err: fmt.Sprint("panic: ", p)}
+		}
+	}()
 	f := url.Values{}
 	f.Set("query", c.Query)
 	path := "/api/v1/query_range"
@@ -451,6 +494,9 @@ func feature(q string) string {
 			f = append(f, k.name)
 		}
 	}
+	if inPlaceRewrite(q) {
+		f = append(f, "destination-is-source")
+	}
 	return strings.Join(f, "+")
 }
 
@@ -459,7 +505,11 @@ func TestCheck(t *testing.T) {
 	defer r.Finish()
 	r.Rule("PromQL programs up to depth 3: {sum,count,max,topk,count_values} x 9 by/without groupings over selectors (one matching two metric names), label_replace/label_join " +
 		"(destination inside / outside the grouping), histogram_quantile over 6 bucket expressions, aggregation over aggregation, binary ops {+,and,unless,or,>} x 9 vector matchings x 10 operands, " +
-		"aggregation over binary op; x 3 series sets x shard counts (quick 2,3; thorough 1..5) x {range, instant}. Only programs the analyzer shards are evaluated. " +
+		"aggregation over binary op; x 3 series sets x shard counts (quick 2,3; thorough 1..5) x {range, instant}. " +
+		"In-place family: 10 label_replace/label_join calls whose destination is one of their own source labels (first character, constant, removal, __name__, parenthesised arguments, " +
+		"join with the destination as first / last / only source; non-injective on the data) under {sum,topk,count_values} x 11 groupings (by/without the rewritten label, the other label, __name__), " +
+		"aggregation over aggregation, binary ops {+,or,unless} x 8 matchings; x 4 series sets (one with multi-character values: several stored values map to one rewritten value). " +
+		"Only programs the analyzer shards are evaluated. " +
 		"non-trivial = distinct cases with a non-empty unsharded result whose series are spread over >= 2 shards")
 	r.Assume("each shard evaluates the unchanged query with Prometheus' promql.Engine over the series selected by ShardInfo.Matcher().MatchesLabels (the store-side contract)",
 		"reference = same tripperware without the sharding middleware over the same harness; cases whose reference evaluation fails (duplicate label sets, many-to-many) are skipped and counted",
@@ -475,23 +525,49 @@ func TestCheck(t *testing.T) {
 		d := downstream{set: seriesSets[set]}
 		s, err := queryfrontend.VerifC44Tripperware(n, d)
 		if err != nil {
-			t.Fatalf("HARNESS-ERROR %v", err)
+			panic(fmt.Sprintf("HARNESS-ERROR %v", err))
 		}
 		p, err := queryfrontend.VerifC44Tripperware(0, d)
 		if err != nil {
-			t.Fatalf("HARNESS-ERROR %v", err)
+			panic(fmt.Sprintf("HARNESS-ERROR %v", err))
 		}
 		v, _ := rigs.LoadOrStore(k, pair{s, p})
 		return v.(pair)
 	}
 	an := querysharding.NewQueryAnalyzer()
+	func() {
+		defer func() {
+			if p := recover(); p != nil {
+				if s, ok := p.(string); ok && strings.HasPrefix(s, "HARNESS-ERROR") {
+					panic(p)
+				}
+				r.Note("collision statistics of the in-place family not computed, the shard matcher panics: %v", p)
+			}
+		}()
+		collisionStats(r, vlib.Pick(r, []int{2, 3}, []int{1, 2, 3, 4, 5}))
+	}()
 
 	vlib.ForEach(r, gen(r), func(c Case) {
 		r.Sample(c)
-		a, err := an.Analyze(c.Query)
+		defer func() {
+			if p := recover(); p != nil {
+				if s, ok := p.(string); ok && strings.HasPrefix(s, "HARNESS-ERROR") {
+					panic(p)
+				}
+				r.Violation("panic-in-code-under-test:"+feature(c.Query), fmt.Sprintf("query %q, %d shards: %v", c.Query, c.Shards, p), c)
+			}
+		}()
+		a, err, pan := analyze(an, c.Query)
+		if pan != "" {
+			r.Violation("analyzer-panics:"+feature(c.Query), fmt.Sprintf("Analyze(%q) panics: %s", c.Query, pan), c)
+			return
+		}
 		if err != nil || !a.IsShardable() {
 			r.Add("not_sharded", 1)
 			return
+		}
+		if inPlaceRewrite(c.Query) {
+			r.Add("inplace_cases", 1)
 		}
 		set := seriesSets[c.Set]
 		// (1) partition: every series in exactly one shard; agreeing on the sharding labels => same shard
@@ -541,6 +617,9 @@ func TestCheck(t *testing.T) {
 		got := ask(p.sharded, c)
 		if len(ref.Series) > 0 && len(used) >= 2 {
 			r.Nontrivial(fmt.Sprintf("%s|%d|%d|%v", c.Query, c.Set, c.Shards, c.Instant))
+			if inPlaceRewrite(c.Query) {
+				r.Add("inplace_nontrivial", 1)
+			}
 		}
 		kind := "range"
 		if c.Instant {
